@@ -1,7 +1,9 @@
 #!/bin/sh
-# re-runs every kept seeded change against the current checks (quick tier); one summary line each -> out/reeval_seeds.txt
+# re-runs kept seeded changes against the current checks (quick tier); one summary line each -> out/reeval_seeds.txt
+# usage: tools/reeval_seeds.sh [ID ...]   (no IDs = all properties)
 cd /verif; : > out/reeval_seeds.txt
 for d in seeded/*/; do n=$(basename $d); pid=$(echo $n | cut -d- -f1)
+  if [ $# -gt 0 ]; then case " $* " in *" $pid "*) ;; *) continue;; esac; fi
   r=$(tools/eval_seed.py /verif/seeded/$n $pid --skip-pytest 2>&1 | grep -E "CONFIRMED|NOT CONFIRMED|DOES NOT APPLY|OBSOLETE" | tail -1)
   echo "$n $r" | tee -a out/reeval_seeds.txt
 done
